@@ -432,3 +432,5 @@ def check(ctx):
     ctx.run('C10.R5', 'progress bookkeeping: skip/offset/left updates and the done condition', r5_bookkeeping)
     ctx.run('C10.R6', 'BufMut wrappers forward buffer_init iff parts (pool hooks)', r6_forwarding)
     ctx.run('C10.R7', 'successful result is the caller\'s buffer; reset asserts Complete', r7_extract)
+    from . import c13
+    ctx.run('C10.R8', 'every completion tells the buffer its size (set_init/buffer_init on every path, from this completion): the read_n/recv_n counters depend on it (=C13.R5)', c13.r5_decoders)
